@@ -1,6 +1,7 @@
 PROPERTY = "C17"
 LEVEL = "proof"
-LEAN_MODULES = ["CifModel.Props.C17", "CifModel.Props.C17Map", "CifModel.Props.C17Store", "CifModel.Props.ReviewC17"]
+LEAN_MODULES = ["CifModel.Props.C17", "CifModel.Props.C17Map", "CifModel.Props.C17Store", "CifModel.Props.ReviewC17",
+                "CifModel.Props.C17Tree", "CifModel.Props.C17Iter", "CifModel.Props.C17Header"]
 REQUIRED = ["CifModel.C17_dup_ustrings_balanced", "CifModel.C17_clone_balanced", "CifModel.C17_insert_balanced",
             "CifModel.C17_fault_reached_iff", "CifModel.C17_set_element_balanced", "CifModel.C17_get_names_balanced",
             "CifModel.C17_cex_get_names_leak", "CifModel.C17_clone_shape", "CifModel.C17_balanced_nodup",
@@ -10,11 +11,17 @@ REQUIRED = ["CifModel.C17_dup_ustrings_balanced", "CifModel.C17_clone_balanced",
             "CifModel.C17_clone_table_balanced", "CifModel.C17_cex_clone_table_corrupt", "CifModel.C17_map_fault_reached_iff",
             "CifModel.C17_ladder_reentry", "CifModel.C17_deserialize_table_balanced", "CifModel.C17_get_names_norm_balanced",
             "CifModel.C17_atomic_under_fault", "CifModel.C17_abs_unchanged", "CifModel.C17_close_fault_is_abort",
-            "CifModel.C17_fault_modelled", "CifModel.C17_fault_path_independent"]
+            "CifModel.C17_fault_modelled", "CifModel.C17_fault_path_independent",
+            "CifModel.C17_clone_any_balanced", "CifModel.C17_deser_any_balanced", "CifModel.C17_free_any_balanced",
+            "CifModel.C17_clone_any_extends", "CifModel.C17_get_packets_balanced", "CifModel.C17_next_packet_balanced",
+            "CifModel.C17_loop_header_balanced", "CifModel.C17_get_all_loops_balanced"]
 GEN = ["ErrCodes", "Schema", "Uthash"]
 FAMILIES = ["ladder", "oom", "storefault"]
 TRUSTED_BASE = [
     "Lean 4.33.0 kernel; axioms propext / Quot.sound / Classical.choice only",
+    "Model/LadderTree.lean (clone / deserialise / free of arbitrary value trees), Model/LadderIter.lean (cif_loop_get_packets, cif_pktitr_next_packet), "
+    "Model/LadderHeader.lean (parse_loop_header + list release, cif_container_get_all_loops): hand transcriptions tied by family `ladder` "
+    "subcommands vclone, vdeser, getpackets, nextpacket, loophdr, allloops",
     "Model/Ladder.lean: hand transcription of the allocation/clean-up control flow of dup_ustrings, cif_value_clone (scalar, "
     "char, number, nested list), cif_value_insert_element_at, cif_value_set_element_at, cif_loop_get_names, cif_value_copy_char, cif_packet_create "
     "(ASCII names, below uthash's first bucket expansion) and cif_value_deserialize of list blobs; Model/LadderMap.lean: cif_map_set_item, "
@@ -51,7 +58,7 @@ PARTIAL = [
     "(TxClass.stmt: the store is returned as it was)",
     "ladder theorems (Props/C17.lean, Props/C17Map.lean), every size / shape / key set / fault position. The `*_balanced` theorems are "
     "about the model variant that family `ladder` compares with the CURRENT sources (/repo 3148ec3): dup_ustrings, cif_value_clone "
-    "(scalars, text, numbers, nested lists; tables only at the top: C17_clone_table_balanced), cif_value_insert_element_at, "
+    "(scalars, text, numbers, nested lists; tables at the top: C17_clone_table_balanced; any nesting: C17_clone_any_balanced), cif_value_insert_element_at, "
     "cif_value_set_element_at (after f1b092b), cif_value_copy_char, cif_loop_get_names without normalisation (after 0850ab1), "
     "cif_loop_get_names_internal with normalisation (ASCII names; after c161ded), "
     "cif_packet_create for ASCII names below uthash's first bucket expansion (after 07fe35a), cif_value_deserialize of list blobs "
@@ -74,14 +81,37 @@ PARTIAL = [
     "value, so a further call (with its own single fault) may follow - C17_ladder_reentry proves it for every sequence of "
     "cif_map_set_item / removal calls on one map, each with its own fault position; the ladders that start from the empty window (dup, clone, insert, packet_create, deserialize, "
     "get_names, clone of a table) create their result and have nothing to re-enter. There is no theorem about two faults inside ONE call",
-    "not covered by a ladder theorem (fault-enumeration run only): tables nested inside list elements or table entries (clone and "
-    "deserialise), non-ASCII names (whose normalisation may re-allocate), parse_loop_header, cif_loop_get_packets' name set, every "
-    "other allocation site",
+    "arbitrarily nested values (Props/C17Tree.lean, Model/LadderTree.lean): C17_clone_any_balanced and C17_deser_any_balanced hold for EVERY "
+    "value tree (tables inside lists inside tables ..., each table with its own uthash bookkeeping incl. bucket expansions), every fault "
+    "position and from any start state: Balanced, failure IFF the fault position is one of the call's own requests (the request count is a "
+    "function of the shape alone and is proved to be the fault-free run's count), nothing of a partial copy stays live, no block that existed "
+    "before the call (the source) is released; C17_free_any_balanced: cif_value_free of a well-formed tree. The older table-free theorems "
+    "(C17_clone_balanced, C17_deserialize_balanced, C17_clone_table_balanced, C17_deserialize_table_balanced) are kept; insert / set_element / "
+    "map set still use the table-free `Shape` for the value they clone",
+    "packet iterator (Props/C17Iter.lean): C17_get_packets_balanced (iterator object, normalised names, uthash name set; after fe1bb36) and "
+    "C17_next_packet_balanced (cif_packet_create_norm with key copies, GET_VALUE_PROPS per item incl. blobs of any nesting, packet handed over "
+    "or dropped; after afb74d5 / 3148ec3) for every name list / item list / fault position. NOT modelled: cif_pktitr_next_packet's third "
+    "branch (values moved into a packet the caller supplied), SQLite's own allocations, the order of the releases inside the handlers for "
+    "the entry that was being added (the observation is order-insensitive); the iterator's name order is SQLite's, so the correspondence "
+    "runs use name sets whose uthash behaviour is order-independent (<= 9 names, or exactly 10 of one bucket)",
+    "parser (Props/C17Header.lean): C17_loop_header_balanced - parse_loop_header for a syntax-only parse (container == NULL) of n distinct "
+    "ASCII names and a refused repetition of the first, with parse_loop's release of the name list, every n and fault position. NOT covered: "
+    "the loop creation (cif_container_create_loop), cif_container_get_item_loop's duplicate check with a container, the loop body "
+    "(parse_loop_packets). C17_get_all_loops_balanced: cif_container_get_all_loops (library requests only)",
+    "census (family oom, histogram labels lib:<operation>:<proved|leaf|observed>; table: tools/dev/oom_census.py --coverage): of the "
+    "library-class fault sites of the ~65 operations, those inside a function with a proved ladder (tools/gen/oom.py LADDER_FUNCS), those in "
+    "leaf helpers that make one request and have no clean-up of their own (cif_u_strdup, cif_value_create, cif_buf_create) and those that "
+    "only the enumeration executes. 'proved' means the FUNCTION containing the request has a ladder theorem (for ASCII names / the modelled "
+    "paths), not that the whole operation is proved",
+    "not covered by a ladder theorem (fault-enumeration run only): non-ASCII names (whose normalisation may re-allocate), "
+    "cif_pktitr_next_packet into a caller-supplied packet, parse_loop_packets / parse_value / parse_container, cif_container_create_loop, "
+    "cif_container_get_all_frames, cif_get_all_blocks, cif_value_get_text / try_quoted / serialisation buffers, every other allocation site",
     "all 64 classes of allocation-failure defects found by the exhaustive census have been repaired in /repo (18 fix: commits, "
     "notes/agents/gK.md); known_findings.d/C17.json is empty, their example requests are regression lines in corpus/oom/closed.req",
 ]
 LEVEL_TEXT = ("Partial proof + exhaustive fault enumeration. Lean theorems: for every number of strings / every value shape "
-              "(any nesting, any width) and EVERY position of the single failing allocation, the modelled clean-up ladders "
+              "(any nesting of lists AND tables, any width) and EVERY position of the single failing allocation, the modelled clean-up ladders "
+              "(values, maps, packets, the packet iterator, the parser's loop header, get_all_loops) "
               "release each block exactly once, leak nothing on failure and return an error; the model is tied to the real "
               "functions by comparing allocation/release patterns for every fault position. All other allocation sites "
               "(library, SQLite and ICU allocators) of ~65 public API operations are failed one at a time on the real code "
